@@ -13,8 +13,9 @@
    nested to any depth, and special sequences (C02_text_keeps_its_place):
    the text tokens leave the expander as the scanner made them -- same
    character, same position, same order --, a special sequence shows as its
-   tabulated text at the position of its first character, and nothing else
-   of visible text is in the output.  Not proved: that the expander
+   tabulated text at the position of its first character, the body of a
+   declared macro without arguments shows pinned to the call, and nothing
+   else of visible text is in the output.  Not proved: that the expander
    moves copied tokens without changing position or text (arguments of
    macros, \text in maths, footnotes); tied by the correspondence run and
    the copy oracle of harness/props/c02.py on every generated case. *)
@@ -68,7 +69,7 @@ Print Assumptions C02_special_replacement_position.
 Theorem C02_text_keeps_its_place : forall rd fuel toks st st' out,
   bcl py_tables (macros st) toks ->
   exec py_tables rd fuel (TSeq toks None []) st = Ok (st', ASeq out []) ->
-  filter (solid py_isspace) out = filter (solid py_isspace) (texts (rtoks py_tables toks)).
+  filter (solid py_isspace) out = filter (solid py_isspace) (texts (rtoks py_tables (macros st) toks)).
 Proof.
   exact (fun rd fuel toks st st' out =>
            exec_args_positions py_tables rd (eq_refl true) (fun c => eq_refl) (eq_refl true)
@@ -87,11 +88,15 @@ Theorem C02_document_of_the_class : forall rd fuel st latex r,
   parser_work py_tables (exec py_tables rd fuel) st latex = Ok r ->
   let toks := fst (scan (t_scan py_tables) latex) in
   filter (solid py_isspace) (snd r)
-    = filter (solid py_isspace) (texts (rtoks py_tables toks)) /\
+    = filter (solid py_isspace) (texts (rtoks py_tables (macros st) toks)) /\
   Forall (fun t => (In t toks /\ faithful latex t) \/
-                   exists s v, In s toks /\ faithful latex s /\ tk s = KSpecial /\
-                               assoc (txt s) (t_special_values py_tables) = Some v /\
-                               t = mk KText (pos s) v (pfix s))
+                   (exists s v, In s toks /\ faithful latex s /\ tk s = KSpecial /\
+                                assoc (txt s) (t_special_values py_tables) = Some v /\
+                                t = mk KText (pos s) v (pfix s)) \/
+                   (exists m mac body b, In m toks /\ faithful latex m /\ tk m = KMacro /\
+                                assoc (txt m) (macros st) = Some mac /\
+                                m_repl mac = RToks body /\ In b body /\
+                                t = set_pos_fix b (pos m)))
          (filter (solid py_isspace) (snd r)) /\
   unknowns (fst r) = fold_left ExpandSites.add_unknown (unames (macros st) toks) (unknowns st) /\
   macros (fst r) = macros st.
